@@ -105,10 +105,26 @@ let fixonly_mode line =
     String.concat " " (List.map string_of_int kept)
   | _ -> failwith "bad fixonly input"
 
+(* report: "nsev -1" then one group per rule "line sev err sol line sev err sol ... -1"; sol identifies the row *)
+let report_mode line =
+  match split_lines (ints line) with
+  | [nsev] :: rules ->
+    let per_rule = List.mapi (fun i l ->
+      let rec go = function
+        | ln :: sv :: er :: so :: r -> { r_rule = nat_of_int i; r_line = nat_of_int ln; r_sev = nat_of_int sv; r_error = bool_of_int er; r_sol = nat_of_int so } :: go r
+        | [] -> []
+        | _ -> failwith "bad row" in go l) rules in
+    let ids l = String.concat " " (List.map (fun x -> string_of_int (int_of_nat x.r_sol)) l) in
+    Printf.sprintf "%s | %d | %s | %s | %d | %d" (ids (table_rows per_rule)) (int_of_nat (total per_rule))
+      (String.concat " " (List.map (fun n -> string_of_int (int_of_nat n)) (sev_counts (nat_of_int nsev) per_rule)))
+      (ids (junit_rows per_rule)) (if file_status per_rule then 1 else 0) (if summary_ok_by_type per_rule then 1 else 0)
+  | _ -> failwith "bad report input"
+
 let () =
   let mode = if Array.length Sys.argv > 1 then Sys.argv.(1) else "tokenizer" in
   let f = match mode with
     | "tokenizer" -> tokenizer
+    | "report" -> report_mode
     | "sched" -> sched_mode
     | "fixonly" -> fixonly_mode
     | "tags" -> tags_mode
